@@ -8,17 +8,22 @@ using namespace c20;
 VF_SECTION(vec2, 2, 2, 90) {
   vec_pairs<int64_t, 2>(r, range_alphabet<int64_t>(-4, 4), range_alphabet<int64_t>(-4, 4), true, "small components");
   vec_pairs<double, 2>(r, range_alphabet<double>(-4, 4), range_alphabet<double>(-4, 4), true, "small components");
-  r.bound = "Vector2<int64_t> and Vector2<double>: all ordered pairs with components in [-4,4] (6561 each) and every (vector, scalar in [-4,4])";
+  r.bound = "Vector2<int64_t> and Vector2<double>: all ordered pairs with components in [-4,4] (6561 each) and every (vector, scalar in [-4,4]); aliased-operand forms (v op= v.<component>, v = v op v.<component>, op in + - * / %, every component by each of its names x/y, a/b and at(i); "
+            "v = v + v, v = v - v, v = -v; results assigned over either operand) on every vector";
 }
 VF_SECTION(vec3, 16, 16, 90) {
   vec_pairs<int64_t, 3>(r, range_alphabet<int64_t>(-4, 4), range_alphabet<int64_t>(-4, 4), true, "small components");
   vec_pairs<double, 3>(r, range_alphabet<double>(-4, 4), range_alphabet<double>(-4, 4), true, "small components");
-  r.bound = "Vector3<int64_t> and Vector3<double>: all ordered pairs with components in [-4,4] (531441 each) and every (vector, scalar in [-4,4])";
+  r.bound = "Vector3<int64_t> and Vector3<double>: all ordered pairs with components in [-4,4] (531441 each) and every (vector, scalar in [-4,4]); aliased-operand forms (v op= v.<component>, v = v op v.<component>, op in + - * / %, every component by each of its names x/y/z, rx/ry/rz, r/g/b and at(i); "
+            "v = v + v, v = v - v, v = -v, v = v.cross(v); results of + - cross assigned over either operand) on every vector";
 }
 VF_SECTION(vec4, 2, 2, 90) {
-  vec_pairs<int64_t, 4>(r, range_alphabet<int64_t>(-1, 1), range_alphabet<int64_t>(-1, 1), true, "small components");
-  vec_pairs<double, 4>(r, range_alphabet<double>(-1, 1), range_alphabet<double>(-1, 1), true, "small components");
-  r.bound = "Vector4<int64_t> and Vector4<double>: all ordered pairs with components in [-1,1] (6561 each) and every (vector, scalar in [-1,1])";
+  const std::vector<int64_t> ai = range_alphabet<int64_t>(-4, 4);
+  const std::vector<double> ad = range_alphabet<double>(-4, 4);
+  vec_pairs<int64_t, 4>(r, range_alphabet<int64_t>(-1, 1), range_alphabet<int64_t>(-1, 1), true, "small components", &ai);
+  vec_pairs<double, 4>(r, range_alphabet<double>(-1, 1), range_alphabet<double>(-1, 1), true, "small components", &ad);
+  r.bound = "Vector4<int64_t> and Vector4<double>: all ordered pairs with components in [-1,1] (6561 each) and every (vector, scalar in [-1,1]); aliased-operand forms (v op= v.<component>, v = v op v.<component>, op in + - * / %, "
+            "every component by each of its names x/y/z/w, r/g/b/a and at(i); v = v + v, v = v - v, v = -v) on every vector with components in [-4,4] (6561 each)";
 }
 VF_SECTION(order, 16, 16, 90) {
   vec_triples<int64_t, 2>(r, range_alphabet<int64_t>(-4, 4));
